@@ -8,9 +8,11 @@ package wasm
 import (
 	"context"
 
+	"errors"
 	"github.com/tetratelabs/wazero/api"
 	"github.com/tetratelabs/wazero/experimental"
 	internalsys "github.com/tetratelabs/wazero/internal/sys"
+	"github.com/tetratelabs/wazero/sys"
 )
 
 var (
@@ -275,7 +277,6 @@ func closedWord(m *ModuleInstance) uint64 { return m.Closed.Load() }
 //@   ensures[notifies-at-most-once] closeNotified() == old(closeNotified()) || (closeNotified() == old(closeNotified())+1 && old(m.CloseNotifier != nil))
 //@   ensures[deferred-close-completes] old(closedWord(m)) != 0 && old(closedWord(m))&exitCodeFlagMask == exitCodeFlagResourceNotClosed ==> m.CloseNotifier == nil
 
-
 // ---- C11 / C04: what an instance owns is allocated by its own instantiation; what it imports is shared.
 //@ prop C11 C04
 
@@ -343,3 +344,39 @@ func closedWord(m *ModuleInstance) uint64 { return m.Closed.Load() }
 //@     invariant forall k Index :: k < Index(rangeindex+1) ==> verif_fresh(m.Tables[k+module.ImportTableCount])
 //@     invariant forall k Index :: k < module.ImportTableCount ==> m.Tables[k] == old[*TableInstance](m.Tables[k])
 //@     invariant len(m.Tables) == int(module.ImportTableCount)+len(module.TableSection)
+
+// ---- C07: a context that is done closes the module with the exit code of its cause.
+// ctxDone(ctx): ghost - the context's Done channel is closed. chClosed(ch): ghost - ch is closed.
+func ctxDone(ctx context.Context) bool { return verif_ghost_flag("ctxDone", ctx) }
+
+// ctxCanceled(ctx): ghost - which of the two documented outcomes a done context reports.
+func ctxCanceled(ctx context.Context) bool { return verif_ghost_flag("ctxCanceled", ctx) }
+func chClosed(ch <-chan struct{}) bool     { return verif_ghost_flag("chanClosed", ch) }
+func exitCodeOf(m *ModuleInstance) uint32  { return uint32(closedWord(m) >> 32) }
+
+var _ = errors.Is
+var _ = sys.ExitCodeContextCanceled
+
+//@ prop C07
+// context.Context as documented (assumed): Done's channel is closed exactly when the context is done,
+// and Err then reports Canceled or DeadlineExceeded (possibly wrapped) - whatever the cause given.
+//@ iface (c context.Context) Done() <-chan struct{}
+//@   ensures (r0 != nil && chClosed(r0)) == ctxDone(c)
+//@   modifies nothing
+//@ iface (c context.Context) Err() error
+//@   ensures ctxDone(c) ==> errors.Is(r0, context.Canceled) == ctxCanceled(c) && errors.Is(r0, context.DeadlineExceeded) == !ctxCanceled(c)
+//@   modifies nothing
+
+// The watcher spawned for a call: once the context is done (and the call has not finished, i.e. its
+// cancel channel is still open) the module is closed, with the cancel or deadline exit code.
+//@ func (m *ModuleInstance) closeModuleOnCanceledOrTimeout(ctx context.Context, cancelChan <-chan struct{})
+//@   requires m.s != nil && regInv(m.s) && ctx != nil
+//@   ensures[closes-when-done] old(ctxDone(ctx) && !chClosed(cancelChan)) ==> closedWord(m) != 0
+//@   ensures[exit-code-of-cause] old(ctxDone(ctx) && !chClosed(cancelChan)) && old(closedWord(m)) == 0 ==> exitCodeOf(m) == sys.ExitCodeContextCanceled || exitCodeOf(m) == sys.ExitCodeDeadlineExceeded
+//@   ensures[left-alone-otherwise] old(!ctxDone(ctx)) ==> closedWord(m) == old(closedWord(m))
+
+// The same decision when the context is already done at call entry.
+//@ func (m *ModuleInstance) CloseWithCtxErr(ctx context.Context)
+//@   requires m.s != nil && regInv(m.s) && ctx != nil
+//@   ensures[closes-when-done] old(ctxDone(ctx)) ==> closedWord(m) != 0
+//@   ensures[exit-code-of-cause] old(ctxDone(ctx)) && old(closedWord(m)) == 0 ==> exitCodeOf(m) == sys.ExitCodeContextCanceled || exitCodeOf(m) == sys.ExitCodeDeadlineExceeded
